@@ -1,5 +1,5 @@
 (* C05 — all lookups agree; head is the newest frame of exactly that topic. *)
-From XS Require Import Model.Spec Proofs.Inv Proofs.Refine Proofs.Corollaries Proofs.AppendP Proofs.KeysP.
+From XS Require Import Model.Spec Proofs.Inv Proofs.Refine Proofs.Corollaries Proofs.AppendP Proofs.KeysP Proofs.RefineA.
 From XS Require Proofs.SpecP.
 
 Theorem C05_lookups_agree : forall now ops f,
@@ -66,6 +66,14 @@ Qed.
 Theorem C05_head_nul_query : forall s t c, has_nul t = true -> head s t c = None.
 Proof. intros s t c H. unfold head. rewrite H. reflexivity. Qed.
 Print Assumptions C05_head_nul_query.
+
+(* an import that re-uses a stored id under another topic or context (F7, fixed in /repo): the pinned
+   insert_frame left the old frame's index entries behind - head of the OLD topic answered with the
+   new frame; the fixed one drops them in the same batch, and the refinement theorem no longer has a
+   hypothesis about imported ids *)
+Check overwrite_leaves_index_refuted.
+Check kv_put_del.
+Check a_insert_delete.
 
 Example C05_nonvacuous :
   admissible 0 [OAppend 5 (mkFrame 0 0 [97] None None None);
